@@ -480,7 +480,7 @@ def run(ctx, replay):
     ctx.cov["rows_by_table"] = {"%s/%s" % st: sum(1 for row in sel if (row["in"]["sub"], row["in"]["tab"]) == st) for st in tabs}
     ctx.cov["slow_rows_ms"] = sorted((e["out"].get("wallms", 0) for e in events), reverse=True)[:5]
     ctx.cov["rule"] = ("rows = complete states of ExtScanMilter.tla (scripts revealed answer by answer: main table = 12 answers "
-                       "at each of connect / helo / mail / 2 x rcpt / 2 x header / eoh / body and 12 final answers x 5 (quick) or "
+                       "at each of connect / helo / mail / 2 x rcpt / 2 x header / eoh / body and 12 final answers x 7 (quick) or "
                        "12 (thorough) lists of modification actions at end of body, fail_open yes / no; side tables: fail_open "
                        "absent, session kinds x TLS x authentication x SMTPUTF8 x protocol version, nil connection, negotiated "
                        "protocol options, unreachable / failing negotiation x fail_open x endpoint forms, body sizes, header "
